@@ -21,3 +21,93 @@ pub(crate) fn any_slice<const N: usize>(min: usize) -> &'static [u8] {
 pub(crate) fn utf8_stub(v: &[u8]) -> Result<&str, core::str::Utf8Error> {
     vsupport::utf8_ascii_stub(v)
 }
+
+use crate::core::base_types::*;
+use crate::core::error::*;
+use crate::core::properties::*;
+use crate::core::utils::*;
+
+/// Arbitrary ASCII string/binary content of 0..=N bytes.
+pub(crate) fn any_ascii<const N: usize>() -> Bytes {
+    let raw: &'static [u8; N] = Box::leak(Box::new(kani::any()));
+    let len: usize = kani::any();
+    kani::assume(len <= N);
+    let mut i = 0;
+    while i < N {
+        kani::assume(raw[i] < 0x80);
+        i += 1;
+    }
+    Bytes::from_static(&raw[..len])
+}
+
+fn nz16() -> NonZero<u16> {
+    let v: u16 = kani::any();
+    kani::assume(v != 0);
+    NonZero::try_from(v).unwrap()
+}
+
+/// An arbitrary well-formed `Property` value (any of the 27 kinds, arbitrary payload; strings and
+/// binaries of 0..=2 bytes, ASCII).
+pub(crate) fn any_property() -> Property {
+    let sel: u8 = kani::any();
+    kani::assume(sel < 27);
+    match sel {
+        0 => Property::PayloadFormatIndicator(PayloadFormatIndicator(kani::any())),
+        1 => Property::MessageExpiryInterval(MessageExpiryInterval(kani::any())),
+        2 => Property::ContentType(ContentType(UTF8String(any_ascii::<2>()))),
+        3 => Property::ResponseTopic(ResponseTopic(UTF8String(any_ascii::<2>()))),
+        4 => Property::CorrelationData(CorrelationData(Binary(any_bytes::<2>(0)))),
+        5 => {
+            let v: u32 = kani::any();
+            kani::assume(v != 0 && v <= 0x0fff_ffff);
+            Property::SubscriptionIdentifier(SubscriptionIdentifier(
+                NonZero::try_from(VarSizeInt::try_from(v).unwrap()).unwrap(),
+            ))
+        }
+        6 => Property::SessionExpiryInterval(SessionExpiryInterval(kani::any())),
+        7 => Property::AssignedClientIdentifier(AssignedClientIdentifier(UTF8String(any_ascii::<2>()))),
+        8 => Property::ServerKeepAlive(ServerKeepAlive(kani::any())),
+        9 => Property::AuthenticationMethod(AuthenticationMethod(UTF8String(any_ascii::<2>()))),
+        10 => Property::AuthenticationData(AuthenticationData(Binary(any_bytes::<2>(0)))),
+        11 => Property::RequestProblemInformation(RequestProblemInformation(kani::any())),
+        12 => Property::WillDelayInterval(WillDelayInterval(kani::any())),
+        13 => Property::RequestResponseInformation(RequestResponseInformation(kani::any())),
+        14 => Property::ResponseInformation(ResponseInformation(UTF8String(any_ascii::<2>()))),
+        15 => Property::ServerReference(ServerReference(UTF8String(any_ascii::<2>()))),
+        16 => Property::ReasonString(ReasonString(UTF8String(any_ascii::<2>()))),
+        17 => Property::ReceiveMaximum(ReceiveMaximum(nz16())),
+        18 => Property::TopicAliasMaximum(TopicAliasMaximum(kani::any())),
+        19 => Property::TopicAlias(TopicAlias(nz16())),
+        20 => {
+            let q: u8 = kani::any();
+            kani::assume(q < 3);
+            Property::MaximumQoS(MaximumQoS(QoS::try_from(q).unwrap()))
+        }
+        21 => Property::RetainAvailable(RetainAvailable(kani::any())),
+        22 => Property::UserProperty(UserProperty(UTF8StringPair(any_ascii::<1>(), any_ascii::<1>()))),
+        23 => {
+            let v: u32 = kani::any();
+            kani::assume(v != 0);
+            Property::MaximumPacketSize(MaximumPacketSize(NonZero::try_from(v).unwrap()))
+        }
+        24 => Property::WildcardSubscriptionAvailable(WildcardSubscriptionAvailable(kani::any())),
+        25 => Property::SubscriptionIdentifierAvailable(SubscriptionIdentifierAvailable(kani::any())),
+        _ => Property::SharedSubscriptionAvailable(SharedSubscriptionAvailable(kani::any())),
+    }
+}
+
+/// Contract of `Property::try_decode`, used as its stub in the packet-level "arbitrary bytes"
+/// harnesses (assume-guarantee): it never panics; it returns either an error or a well-formed
+/// property whose `byte_len()` is between 2 and the input length.  The contract itself is what
+/// `property_any` establishes on the real function (for inputs up to its bound).
+pub(crate) fn property_contract(buf: Bytes) -> Result<Property, PropertyError> {
+    if kani::any() {
+        if kani::any() {
+            return Err(InvalidPropertyId.into());
+        }
+        return Err(PropertyError::from(ConversionError::from(InsufficientBufferSize)));
+    }
+    let p = any_property();
+    kani::assume(p.byte_len() <= buf.len());
+    Ok(p)
+}
